@@ -21,7 +21,7 @@ LEVEL_TEXT = (
     "any retention growing with >= 0.5 % of the fed octets crosses the bound. The bound is a generic object-graph measure and does not "
     "name attributes. Sampling of patterns and sizes, not proof."
 )
-RUNS = {"quick": 296, "thorough": 1416}
+RUNS = {"quick": 456, "thorough": 2408}
 CHUNK = {"quick": 2, "thorough": 2}
 BUDGET_S = {"quick": 120, "thorough": 3000}
 SELFTEST_RUNS = 12
@@ -37,8 +37,10 @@ ASSUMPTIONS = [
     "bound = 64 KiB + 2 x len(last chunk): 'a few maximum-size messages' (8 KiB P1 guard, 2047-octet frames, bytearray over-allocation) with margin; factor 2 covers the copy made when a buffer is re-sliced",
     "objects returned to the caller are not retained by the reader and are not counted",
 ]
-MUST_FIRE = {"quick": ["pattern_all_flags", "pattern_slash_no_lf", "pattern_ident_no_end", "pattern_never_ending_frame", "pattern_open_frame_then_flags", "pattern_open_frame_then_escapes", "pattern_flag_escape_alternating", "pattern_p1_soup", "pattern_hdlc_soup"], "thorough": ["pattern_all_flags", "pattern_slash_no_lf", "pattern_ident_no_end", "pattern_never_ending_frame"]}
+MUST_FIRE = {"quick": ["pattern_all_flags", "pattern_slash_no_lf", "pattern_ident_no_end", "pattern_never_ending_frame", "pattern_open_frame_then_flags", "pattern_open_frame_then_escapes", "pattern_flag_escape_alternating", "pattern_p1_soup", "pattern_hdlc_soup", "pattern_octet_flood", "pattern_token_flood"], "thorough": ["pattern_all_flags", "pattern_slash_no_lf", "pattern_ident_no_end", "pattern_never_ending_frame"]}
 
+P1_TOKENS = [b"/ABC5xyz\r\n", b"/KAM5\r\n", b"\r\n", b"\n", b"1-0:1.8.0(000123.456*kWh)\r\n", b"\xff\xfe\r\n", b"1-0:1.7.0(\x80)\r\n", b"!\r\n", b"!1A2B\r\n", b"!zz\r\n", b"!!\r\n", b"! \r\n",
+             b"/", b"/junk", b"x" * 40, b"/ABC5!x\r\n", b"\r", b"(", b"0-0:96.1.1(4B41)\n", b"!", b" \t\r\n", b"\x00\r\n", b"~}\r\n"]
 CONST = 64 * 1024
 HDLC_PATTERNS = ["all_flags", "flag_junk", "valid_frames", "never_ending_frame", "random", "random_ascii", "escape_flood", "flag_escape_alternating", "open_frame_then_flags", "open_frame_then_escapes", "open_frame_then_flag_escape", "valid_frames_single_flag", "invalid_frames_single_flag", "aborted_frames"]
 P1_PATTERNS = ["ident_no_end", "slash_no_lf", "ident_endless_lines", "valid_readouts", "random", "random_ascii", "ident_lines_repeated", "ident_endless_blank_lines", "ident_endless_lf", "lf_forever", "cr_forever", "ident_endless_bang_less_text", "ident_then_nonascii_line"]
@@ -49,13 +51,24 @@ def gen(rng, tier, index):
     # systematic over (reader/config x pattern), seeded chunk size and content
     combos = [("hdlc", list(cfg), p) for cfg in hdlc_gen.CONFIGS for p in HDLC_PATTERNS] + [("p1", None, p) for p in P1_PATTERNS]
     if index >= 2 * len(combos):
-        # token soup: a short seeded cycle of protocol tokens repeated for ever - finds retention paths that
-        # need a particular sequence of events per cycle (e.g. identification line, then a non-ASCII line)
-        if index % 2:
+        # beyond the systematic part the run index enumerates three open-ended families:
+        #  soups  - a short seeded cycle of protocol tokens repeated for ever (retention paths that need a sequence of events)
+        #  octet floods - an opened HDLC frame followed by one octet value for ever (all 256 values x stuffing on/off)
+        #  token floods - a P1 identification line followed by one token for ever
+        j = index - 2 * len(combos)
+        fam, n = j % 4, j // 4
+        total = (1 << 19) if tier == "quick" else (1 << 21)
+        chunk = rng.choice([64, 1024, 1024, 8192, rng.randint(2, 3000)])
+        if fam == 0:
+            reader, cfg, pattern = "hdlc", list(hdlc_gen.CONFIGS[n % 4]), "hdlc_soup"
+        elif fam == 1:
             reader, cfg, pattern = "p1", None, "p1_soup"
+        elif fam == 2:
+            x = (n * 37) % 256 if tier == "quick" else n % 256  # quick: a stride through the values; thorough: all of them in order
+            reader, cfg, pattern = "hdlc", [bool((n // 256) % 2 == 0), bool(n % 2)], f"octet_flood:{x}"
         else:
-            reader, cfg, pattern = "hdlc", list(hdlc_gen.CONFIGS[(index // 2) % 4]), "hdlc_soup"
-        yield {"reader": reader, "cfg": cfg, "pattern": pattern, "content_seed": rng.getrandbits(32), "chunk": rng.choice([64, 1024, 1024, 8192, rng.randint(2, 3000)]), "total": (1 << 19) if tier == "quick" else (1 << 22)}
+            reader, cfg, pattern = "p1", None, f"token_flood:{n % len(P1_TOKENS)}"
+        yield {"reader": reader, "cfg": cfg, "pattern": pattern, "content_seed": rng.getrandbits(32), "chunk": chunk, "total": total}
         return
     reader, cfg, pattern = combos[index % len(combos)]
     chunk = rng.choice(CHUNKS + [rng.randint(2, 70000)])
@@ -71,9 +84,13 @@ def block(sc) -> bytes:
     r = random.Random(sc["content_seed"])
     p = sc["pattern"]
     stuffing = bool(sc["cfg"] and sc["cfg"][0])
+    if p.startswith("octet_flood:"):
+        return bytes([int(p.split(":")[1])]) * 4096
+    if p.startswith("token_flood:"):
+        tok = P1_TOKENS[int(p.split(":")[1])]
+        return tok * max(1, 4096 // len(tok))
     if p == "p1_soup":
-        tokens = [b"/ABC5xyz\r\n", b"/KAM5\r\n", b"\r\n", b"\n", b"1-0:1.8.0(000123.456*kWh)\r\n", b"\xff\xfe\r\n", b"1-0:1.7.0(\x80)\r\n", b"!\r\n", b"!1A2B\r\n", b"!zz\r\n",
-                  b"/", b"/junk", b"x" * 40, b"/ABC5!x\r\n", b"\r", b"(", b"0-0:96.1.1(4B41)\n", b"!" , bytes(r.randrange(0x20, 0x7F) for _ in range(30)) + b"\r\n"]
+        tokens = P1_TOKENS + [bytes(r.randrange(0x20, 0x7F) for _ in range(30)) + b"\r\n"]
         cycle = b"".join(r.choice(tokens) for _ in range(r.randint(2, 4)))
         return cycle * max(1, 8192 // max(1, len(cycle)))
     if p == "hdlc_soup":
@@ -160,6 +177,10 @@ def prefix(sc) -> bytes:
         return b"/ABC5xyz\r\n"
     if sc["pattern"].endswith("frames_single_flag"):
         return b"\x7e"
+    if sc["pattern"].startswith("octet_flood:"):
+        return b"\x7e\xa7\xff\x03\x21\x13\x12\x34\x01\x02"
+    if sc["pattern"].startswith("token_flood:"):
+        return b"/ABC5xyz\r\n"
     return b""
 
 
@@ -212,8 +233,8 @@ def execute(sc):
         "digest": prng.digest([sizes[:5], peak, fed, [v["sig"] for v in viol]]),
         "nontrivial": total >= 8 * CONST,
         "key": prng.digest(sc),
-        "faults": {f"pattern_{sc['pattern']}": 1},
-        "probes": {f"pattern_{sc['pattern']}": 1, f"chunk_{chunk if chunk in CHUNKS else 'other'}": 1},
+        "faults": {f"pattern_{sc['pattern'].split(':')[0]}": 1},
+        "probes": {f"pattern_{sc['pattern'].split(':')[0]}": 1, f"chunk_{chunk if chunk in CHUNKS else 'other'}": 1},
         "states": {(sc["reader"], tuple(sc["cfg"] or ()), sc["pattern"], chunk if chunk in CHUNKS else "other")},
         "sim_s": fed / reader_rig.LINE_RATE,
         "summary": dict(sc, block_head=blk[:40].decode("latin-1"), octets_fed=fed, calls=call, samples=len(sizes), peak_deep_size=peak, growth_second_to_last_quarter=growth),
